@@ -20,8 +20,13 @@ CFG = dict(
     rigs=[dict(test="TestC04", timeout_quick=300, timeout_thorough=1200),
           dict(test="TestC04StreamOpsBad", timeout_quick=300, timeout_thorough=1200),
           dict(test="TestC04Sys", timeout_quick=300, timeout_thorough=1200),
-          dict(test="TestC04UnarySeq", timeout_quick=300, timeout_thorough=1200)],
-    reason_text={"1": "implementation output differs from the Gallina model (Model/Meta.v, Base64.v, SrvStream.v)",
+          dict(test="TestC04UnarySeq", timeout_quick=300, timeout_thorough=1200),
+          dict(test="TestGenEquivC04", timeout_quick=300, timeout_thorough=300)],
+    technique="machine-checked proof (Rocq/Coq 8.16.1) of theorems about hand-written Gallina models + correspondence check on every run; "
+              "for ToMetadata additionally: model regenerated from source by tools/go2coq + equivalence proof (coq/Gen/ToMetadataEquiv.v) "
+              "re-checked on every run",
+    reason_text={"1": "implementation output differs from the Gallina model (Model/Meta.v, Base64.v, SrvStream.v), or the definition of "
+                      "ToMetadata regenerated from the source is no longer proved equal to the model / left the translator's subset",
                  "2": "implementation output violates the property predicate (Check/C04c.v: spec_codec / spec_stream / accepted tokens / "
                       "spec_same: same keys lower-cased, same values in per-key order, byte-exact, nothing else)",
                  "3": "header metadata on an envelope after the first one",
